@@ -108,10 +108,12 @@ func RunLive(o LiveOpts, al *Alarms) (*Net, LiveResult, error) {
 		return sw
 	}, p2p.Connect2Switches)
 	t0 := time.Now()
-	for time.Since(t0) < o.MaxWall {
+	// The target test is cheap and comes first; the monitors (slow under the race detector) look at one node per
+	// iteration, so that observing cannot fall behind a cluster that keeps committing: what they have not seen
+	// when the target is reached they see from the recorded traces after the switches are stopped.
+	for it := 0; time.Since(t0) < o.MaxWall; it++ {
 		min := uint64(1 << 62)
 		for _, n := range net.Nodes {
-			net.observe(n)
 			if h := n.BO.Height(); h < min {
 				min = h
 			}
@@ -121,6 +123,7 @@ func RunLive(o LiveOpts, al *Alarms) (*Net, LiveResult, error) {
 			res.Reached = true
 			break
 		}
+		net.observe(net.Nodes[it%len(net.Nodes)])
 		time.Sleep(10 * time.Millisecond)
 	}
 	// a consensus routine that ended while the cluster was still running
